@@ -16,13 +16,19 @@ RULE = ('Sequences of 1-8 items, each a valid frame value (all 14 types) or a ma
         'inside length prefixes and one byte either side of frame boundaries; every case is decoded under three '
         'partitions (one read, every byte its own read / small stride, generated cuts) through FrameParser.receive_data '
         'and additionally through the real TransportTCP.next_frame_generator fed by an asyncio.StreamReader with a '
-        'small read buffer; message mode feeds each item as one message (including the empty message). Oracle: '
+        'small read buffer; message mode feeds each item as one message (including the empty message), also through the '
+        'incoming queue of AbstractMessagingTransport and through the read loops of the repository\'s six websocket '
+        'transports (aiohttp client / server, websockets, asyncwebsockets, quart, channels) given a stand-in websocket '
+        'object, with non-binary messages in between; valid frames are also sent through each transport\'s send_frame '
+        '(one message per frame, holding its bytes). Oracle: '
         'identical output sequence for every partition (metamorphic) and equal to the reference: each valid frame '
         'exactly once, in order, equal to its value; each malformed body yields what parse_or_ignore does on that '
         'body in isolation (for certainly undecodable bodies: no frame), never disturbing its successors; output '
         'count never exceeds item count (endless generators are caught by a cap). Non-trivial = >= 2 items and a cut '
         'strictly inside a frame or a length prefix; distinct = distinct (bytes, cuts).')
-ASSUMPTIONS = ['reference codec provides canonical bytes for valid frames', 'both codec backends are exercised']
+ASSUMPTIONS = ['reference codec provides canonical bytes for valid frames', 'both codec backends are exercised',
+               'websocket transports: the glue code is real, the websocket object it reads from / writes to is a stand-in '
+               '(no network, no websocket library framing)']
 
 INVALID = 'INVALID'
 
@@ -396,6 +402,74 @@ def prop(case):
     return out
 
 
+def glue_prop(case):
+    """The same items, one per message, through the read loops of the repository's own websocket transports (aiohttp client
+    and server, websockets, asyncwebsockets, quart, Django channels; the websocket object is a stand-in, harness/glue.py),
+    with non-binary messages in between where the library has them: the receiver gets exactly the frame of each message,
+    in order. And the other way round: every valid frame handed to send_frame leaves as one message holding its bytes."""
+    from harness import glue
+    out = []
+    items = case['items']
+    bodies = [body_of(it) for it in items]
+    var = variants.all_variants()[0]
+    want_seq = []
+    for it, b in zip(items, bodies):
+        if it['kind'] == 'frame':
+            want_seq.append(frames.ref_view(refcodec.decode(b)))
+        else:
+            iso = isolated(var, b)
+            if certainly_undecodable(it, b):
+                iso = INVALID if iso == INVALID else None
+            if iso is not None:
+                want_seq.append(iso)
+    strip = lambda l: [x for x in l if x != INVALID]
+    valid = [it['v'] for it in items if it['kind'] == 'frame']
+    valid_bodies = [b for it, b in zip(items, bodies) if it['kind'] == 'frame']
+    for g in glue.GLUES:
+        try:
+            got = vloop.run_case(glue.feed, g, bodies, bool(case.get('noise', True)), len(items) + 2)
+        except glue.Endless:
+            out.append(viol('decoder_does_not_terminate', 'C04:endless:glue:' + g, glue=g))
+            continue
+        except Exception as e:
+            is_repo, sig = common.repo_exception_sig(e)
+            if not is_repo:
+                raise
+            out.append(viol('message_transport_raised', 'C04:glue_raised:%s:%s' % (g, type(e).__name__), glue=g, exc=repr(e)))
+            continue
+        raised = [x for x in got if isinstance(x, tuple)]
+        if raised:
+            out.append(viol('message_transport_raised', 'C04:glue_queue_raised:%s:%s' % (g, raised[0][1]), glue=g))
+            continue
+        seq = [view(fr) for fr in got]
+        if strip(seq) != strip(want_seq):
+            out.append(viol('message_output_differs', 'C04:glue_output_differs:' + g, glue=g, n_got=len(seq), n_want=len(want_seq),
+                            first_diff=next((i for i, (a, b) in enumerate(zip(strip(seq), strip(want_seq))) if a != b), None)))
+        try:
+            sent = vloop.run_case(glue.emit, g, [frames.to_repo(var, v) for v in valid])
+        except Exception as e:
+            is_repo, sig = common.repo_exception_sig(e)
+            if not is_repo:
+                raise
+            out.append(viol('message_transport_raised', 'C04:glue_send_raised:%s:%s' % (g, type(e).__name__), glue=g, exc=repr(e)))
+            continue
+        if sent != valid_bodies:
+            out.append(viol('message_output_differs', 'C04:glue_sent_differs:' + g, glue=g, n_sent=len(sent), n_frames=len(valid_bodies)))
+    info['nt'] = len(items) >= 2
+    info['classes'] = ['part=glue', 'items=%d' % len(items), 'has_malformed=%s' % any(it['kind'] != 'frame' for it in items)]
+    info['key'] = common.case_hash(['glue'] + [b.hex() if len(b) < 2000 else common.case_hash(b.hex()) for b in bodies])
+    return out
+
+
+def glue_shard(tier, seed, n):
+    common.use_repo()
+    stats = common.Stats()
+    known = common.Known(PID)
+    variants.load()
+    common.hyp_search(stats, known, cases().map(lambda c: dict(c, glue=True)), glue_prop, n, seed, classify=classify, shrink=True)
+    return stats
+
+
 def classify(case, vs):
     return info['nt'], info['classes'], info['key']
 
@@ -428,7 +502,10 @@ def run(tier, seed):
     total = 4000 if tier == 'quick' else 150000
     nsh = common.NPROC
     jobs = [dict(tier=tier, seed=0, n=None)] + [dict(tier=tier, seed=s, n=total // nsh) for s in common.shard_seeds(seed, nsh)]
-    stats = common.run_shards(__name__, 'shard', jobs)
+    mj = [('shard', j) for j in jobs]
+    nglue = 640 if tier == 'quick' else 24000
+    mj += [('glue_shard', dict(tier=tier, seed=s + 59, n=nglue // 8)) for s in common.shard_seeds(seed, 8)]
+    stats = common.run_shards_multi(__name__, mj)
     if tier == 'thorough':
         from harness import fuzz
         fuzz.run_atheris(stats, PID, 'c04', seed, runs=2000000, max_seconds=240)
@@ -438,4 +515,5 @@ def run(tier, seed):
 def replay(path):
     common.use_repo()
     variants.load()
-    return common.report_replay(PID, path, prop(common.load_replay(path)))
+    case = common.load_replay(path)
+    return common.report_replay(PID, path, glue_prop(case) if case.get('glue') else prop(case))
